@@ -1,6 +1,7 @@
 /- driver for C01: primitive codecs (Model.Prim) and the generated tables -/
 import BacVerif.Drv.Tag
 import BacVerif.Model.Prim
+import BacVerif.Model.Ieee
 import BacVerif.Gen.Enums
 open Lean BacVerif BacVerif.Drv
 
@@ -111,6 +112,15 @@ def handle (j : Json) : R Json := do
       match decodePrim ty t with
       | .error e => pure (jErr e)
       | .ok v => pure (jOk [("v", jVal v)])
+  | "real64" =>  -- Real(x).encode(tag) with x given as the bit pattern of the Python float
+      match encodeRealFloat (← fldNat j "bits64") with
+      | .error e => pure (jErr e)
+      | .ok t => pure (jOk [("data", jHex t.data)])
+  | "widen" =>   -- Real(tag).value as the bit pattern of the Python float
+      let b ← fldNat j "bits"
+      match decodeRealFloat (appData 4 (be32 b)) with
+      | .error e => pure (jErr e)
+      | .ok x => pure (jOk [("bits64", Json.num x)])
   | "a2o" =>     -- Tag.app_to_object
       let t ← tagOfJson (← fld j "tag")
       match appToObject t with
